@@ -28,6 +28,12 @@ def _hang_watch(H, desc, on_hang):
     def on_deadlock(stacks):
         if on_hang is not None:
             on_hang(stacks)
+        main = stacks.get("MainThread") or []
+        tail = [s.split(":")[-1] + "@" + s.split(":")[0] for s in main[-4:]]
+        if getattr(H, "interrupt_sent", False) and "shutdown@run_function_on_graph.py" in tail and "put@queue.py" in tail and tail[-1].startswith("__enter__@threading"):
+            # the calling thread was interrupted by this harness and now blocks in shutdown() -> Queue.put() on the queue mutex: the shape of the
+            # open known finding D6 (C17 decides whether it is that finding or something else); for every other property the case says nothing
+            abort.abort_with({"status": "ok", "nontrivial": False, "counters": {"cases_dropped_hang_shaped_like_known_finding_D6": 1}})
         abort.abort_with({"status": "inconclusive", "mechanism": "hang",
                           "detail": "logical deadlock: every engine thread (incl. the caller of run) is parked in an untimed wait, no call is executing, "
                                     "run has not returned (the hang itself is C07's verdict)",
